@@ -249,3 +249,27 @@ func (e *env) entryFixedCases(r *hx.Rng, n int, next func() string) {
 		emit("Y", next(), kind, hx.Hex(raw), obs)
 	}
 }
+
+// boxSizeCases (kind Z): Size() and the encoded length of unknown boxes read with an 8- / 16-byte header
+func boxSizeCases(r *hx.Rng, n int, next func() string) {
+	for i := 0; i < n; i++ {
+		large := r.Bool()
+		payload := r.Bytes(r.Pick(0, 1, 7, 8, 9, 100, r.Intn(300)), nil)
+		raw := boxBytes("zqzq", payload)
+		if large {
+			raw = largeBoxBytes("zqzq", payload)
+		}
+		obs := "err"
+		if box, err := mp4.DecodeBox(0, bytes.NewReader(raw)); err == nil {
+			var b bytes.Buffer
+			if box.Encode(&b) == nil && bytes.Equal(b.Bytes(), raw) {
+				obs = "ok:" + hx.Csv([]int{int(box.Size()), b.Len()})
+			}
+		}
+		l := "0"
+		if large {
+			l = "1"
+		}
+		emit("Z", next(), l, hx.Csv([]int{len(payload)}), obs)
+	}
+}
